@@ -189,7 +189,7 @@ class Tensor:
         if req_grad and not self.is_floating_point:
             raise RuntimeError("Only floating point Tensors can require gradients")
         self._requires_grad = req_grad
-        self._retain_grad = False
+        self._retain_grad = retain_grads__ # results computed under retain_grads keep their grad
         self._children = children
         self._operation = operation
         self._name = name
